@@ -237,6 +237,10 @@ def check_find(pid, tier, seed):
     os.remove(vec)
     q = tier == "quick"
     run_pipeline(res, binary, "zones", gen_lines=gens.gen_find_zones(rng, 200 if q else 4000, findn=(pid == "C17")), nshards=8 if q else 16)
+    if pid in ("C05", "C06") and not q:
+        # the rule half of the search for EVERY interleaving rule, year and table end: machine-checked proof (TLAPS) that the
+        # window walk returns exactly the candidates >= the table end whose clock shows the searched time
+        res.notes["tlaps_unbounded_proofs"] = [C.run_tlapm("proofs/RuleWindow.tla")]
     if pid in ("C05", "C06"):
         # the recorded finding K1 reproduced at the specification level: on an accepted rule whose yearly periods overlap, the
         # window walk of the algorithm layer (Algo.tla, shaped like find_date_time) returns an entry twice
